@@ -29,7 +29,7 @@ ASSUMPTIONS = ["positions compared with relative tolerance 1e-9 of the largest c
                "filters are identified by matching poses and judged with the C11 checkers"]
 PLANE = {"xy": Plane.XY, "xz": Plane.XZ, "yz": Plane.YZ}
 NULL = {"xy": 2, "xz": 1, "yz": 0}
-MUTATORS = {"tl", "tr", "trp", "sim3", "scale", "ids", "down", "mf", "crop", "align", "origin", "project"}
+MUTATORS = {"tl", "tr", "trp", "sim3", "sim3r", "scale", "ids", "down", "mf", "crop", "align", "origin", "project"}
 READS = {"r_pos", "r_quat", "r_se3", "r_dist", "r_len", "r_speed", "r_info", "r_check"}
 
 
@@ -42,6 +42,10 @@ class History(object):
 
     def __init__(self, init):
         real = trajgen.realise(init["traj"]) if "traj" in init else trajgen.bulk_real(init["bulk"]["n"], init["bulk"]["seed"], init["bulk"]["mode"])
+        if init.get("qscale") and real.mode == "pq":
+            # quaternions that are unit only within evo's own check() tolerance (e.g. rounded to 5 decimals in a file)
+            f = np.asarray((list(init["qscale"]) * real.n)[: real.n], dtype=float)
+            real = trajgen.Real(real.P, real.Rs(), "pq", real.T, Q=real.Q * (1.0 + f)[:, None])
         self.timed = bool(init["timed"])
         if self.timed and real.T is None:
             real.T = np.arange(real.n, dtype=float) * 0.5 + 100.0
@@ -65,6 +69,7 @@ class History(object):
         self.projected = False
         self.mag = 1.0 + float(np.abs(real.P).max())
         self.ops_done = []
+        self.qloose = bool(init.get("qscale"))
         self.rtol = 1e-9     # orientation tolerance; grows with repeated drift propagation (see _op_trp)
         self.trp_count = 0
         self.invariant("init")
@@ -110,7 +115,7 @@ class History(object):
             if Q.shape != (n, 4):
                 raise Mismatch("after %s: quaternion view has shape %s for %d poses" % (after, Q.shape, n), observed="count_quat", after=after)
             for k in range(n):
-                if abs(float(np.linalg.norm(Q[k])) - 1.0) > 1e-9:
+                if abs(float(np.linalg.norm(Q[k])) - 1.0) > (1.2e-5 if self.qloose else 1e-9):
                     raise Mismatch("after %s: quaternion %d is not a unit quaternion (norm %r)" % (after, k, float(np.linalg.norm(Q[k]))),
                                    observed="quat_norm", after=after)
                 if float(np.abs(rm.quat_to_R(Q[k]) - self.poses[k][:3, :3]).max()) > self.rtol:
@@ -182,6 +187,14 @@ class History(object):
         s = float(op["s"])
         o.transform(rm.sim3(R, t, s))
         self.poses = [rm.se3(R @ p[:3, :3], s * (R @ p[:3, 3]) + t) for p in self.poses]
+
+    def _op_sim3r(self, op, o, n):
+        """right-multiplication P*T with a Sim(3) T: position p + R_p t (the scale of T acts on nothing), orientation R_p R"""
+        R = gen.rot_matrix(op["T"]["rot"])
+        t = np.asarray(op["T"]["t"], dtype=float) * float(op["T"]["mag"])
+        s = float(op["s"])
+        o.transform(rm.sim3(R, t, s), right_mul=True)
+        self.poses = [rm.se3(p[:3, :3] @ R, p[:3, 3] + p[:3, :3] @ t) for p in self.poses]
 
     def _op_scale(self, op, o, n):
         s = float(op["s"])
@@ -433,13 +446,15 @@ def _nontrivial(case):
 
 # ---- strategies for op arguments -----------------------------------------------------------------
 
-st_T = st.fixed_dictionaries({"rot": gen.st_rotation, "t": st.lists(gen.unit_f, min_size=3, max_size=3), "mag": gen.log_uniform(-2, 3)})
+st_T = st.fixed_dictionaries({"rot": gen.st_rotation, "t": st.lists(gen.unit_f, min_size=3, max_size=3),
+                              "mag": st.one_of(gen.log_uniform(-2, 3), st.just(0.0))})
 st_s = st.one_of(gen.log_uniform(-2, 2), st.sampled_from([1.0, 2.0, 0.5]))
 OPS = {
     "tl": st.fixed_dictionaries({"op": st.just("tl"), "T": st_T}),
     "tr": st.fixed_dictionaries({"op": st.just("tr"), "T": st_T}),
     "trp": st.fixed_dictionaries({"op": st.just("trp"), "T": st_T}),
     "sim3": st.fixed_dictionaries({"op": st.just("sim3"), "T": st_T, "s": st_s}),
+    "sim3r": st.fixed_dictionaries({"op": st.just("sim3r"), "T": st_T, "s": st_s}),
     "scale": st.fixed_dictionaries({"op": st.just("scale"), "s": st_s}),
     "ids": st.fixed_dictionaries({"op": st.just("ids"), "ids": st.lists(st.integers(0, 30), min_size=1, max_size=12), "as_array": st.booleans()}),
     "down": st.fixed_dictionaries({"op": st.just("down"), "n": st.integers(0, 14)}),
@@ -457,6 +472,7 @@ for _r in READS:
 
 st_init = st.integers(1, 12).flatmap(lambda n: st.fixed_dictionaries({
     "traj": trajgen.st_traj(n, stamps=True, exp_lo=-2, exp_hi=4), "timed": st.booleans(), "share": st.sampled_from([False, False, True]),
+    "qscale": st.one_of(st.none(), st.none(), st.lists(st.sampled_from([0.0, 4e-6, -4e-6, 9e-6, 2e-7]), min_size=1, max_size=4)),
     "pre": st.lists(st.sampled_from(trajgen.VIEWS), max_size=2, unique=True)}))
 st_init_bulk = st.fixed_dictionaries({"bulk": st.fixed_dictionaries({"n": st.just(200), "seed": st.integers(0, 2 ** 32), "mode": st.sampled_from(["pq", "se3"])}),
                                       "timed": st.booleans(), "pre": st.lists(st.sampled_from(trajgen.VIEWS), max_size=1)})
@@ -549,7 +565,7 @@ for _name, _strat in OPS.items():
 _T1 = {"rot": {"axis": [0.0, 0.0, 1.0], "theta": 0.7}, "t": [1.0, -0.5, 0.25], "mag": 2.0}
 _T2 = {"rot": {"q": [0.5, -0.5, 0.5, 0.5]}, "t": [0.0, 1.0, 0.0], "mag": 10.0}
 ALPHABET = [
-    {"op": "tl", "T": _T1}, {"op": "tr", "T": _T2}, {"op": "trp", "T": _T1}, {"op": "sim3", "T": _T2, "s": 2.5}, {"op": "scale", "s": 0.5},
+    {"op": "tl", "T": _T1}, {"op": "tr", "T": _T2}, {"op": "trp", "T": _T1}, {"op": "trp", "T": dict(_T1, mag=0.0)}, {"op": "sim3r", "T": _T2, "s": 2.5}, {"op": "sim3", "T": _T2, "s": 2.5}, {"op": "scale", "s": 0.5},
     {"op": "ids", "ids": [0, 2], "as_array": False}, {"op": "down", "n": 2}, {"op": "mf", "d": 1.0, "a": 0.5, "deg": False},
     {"op": "crop", "i": 1, "j": 2, "lo_out": False, "hi_out": True, "lo_none": False, "hi_none": False},
     {"op": "align", "seed": 7, "mode": "similarity", "n": -1}, {"op": "origin", "seed": 9}, {"op": "project", "plane": "xy"},
